@@ -152,7 +152,29 @@ def check_fixed(case, ctx):
     free = [k for k in names if k not in fixed]
     # "estimated": only meaningful when the start values give the data a finite likelihood
     if math.isfinite(ll_start) and all(float(d.parameters[k]) == float(before[k]) for k in free):
-        ctx.violation(f"free_not_estimated:{family}:{method}", f"free parameters {free} still at their start values {before} after fit")
+        # returning the start values is only wrong when they are not already the estimate: look for an admissible
+        # alternative of the free parameters with a clearly better likelihood (a location at its boundary optimum
+        # min(x) ~ 1e-4 next to a start of 0 is within the optimiser's xtol and legitimately stays put)
+        better = None
+        for k in free:
+            v0 = float(before[k])
+            for cand in (v0 * 1.1, v0 * 0.9, v0 + 0.1 * (abs(v0) + 1), v0 - 0.1 * (abs(v0) + 1), v0 * 2, v0 / 2):
+                alt = dict(before)
+                alt[k] = cand
+                try:
+                    with np.errstate(all="ignore"):
+                        ll_alt = float(np.sum(np.log(np.asarray(build.dist(family, alt).pdf(data), dtype=float))))
+                except Exception:  # noqa: BLE001  (inadmissible alternative)
+                    continue
+                if math.isfinite(ll_alt) and ll_alt > ll_start + max(0.5, 1e-6 * abs(ll_start)):
+                    better = (k, cand, ll_alt)
+                    break
+            if better:
+                break
+        if better:
+            ctx.violation(f"free_not_estimated:{family}:{method}", f"free parameters {free} still at their start values {before} after fit although {better[0]}={better[1]!r} has log-likelihood {better[2]!r} > {ll_start!r}")
+        else:
+            ctx.cls("start_already_optimal")
     # evaluation after fit still uses the fixed value
     twin = build.dist(family, dict(d.parameters))
     a = np.asarray(d.cdf(xs), dtype=float)
